@@ -142,6 +142,7 @@ class SimHTTP(object):
         if (self.fail_code and (self.fail_layers is None or q.get('layers') in self.fail_layers)) or plan.get('fail'):
             entry['ok'] = False
             code = self.fail_code or 500
+            entry['code'] = code
             raise HTTPClientError('HTTP Error "%s": %d' % (url, code), response_code=code)
         if sched is not None:
             sched.check_alive()
